@@ -64,4 +64,33 @@ PLANS = {
             "the raw wire peer speaks SP/TCP and SP/IPC framing; MAXTTL range is 1..15 (NNI_MAX_MAX_TTL)",
         ],
     },
+    "C18": {
+        "level": "exploration",
+        "rule": NT_RULE + "; C18: fifo_seq - a fill was refused or a buffer was resized with the path's content "
+                          "known; fifo_conc - a resize happened while accepted messages were still undelivered and "
+                          "something was received; ids - at least 3 sockets and 2 other objects were issued ids (or 2 "
+                          "request/survey ids were seen on the wire); idmap - the operation sequence ran to the final "
+                          "full comparison (single-task model-based sequence test, no interleaving claimed)",
+        "budget_s": {"quick": 50, "thorough": 900},
+        "scenarios": [
+            S("c18_fifo_seq", 1000, 30000),
+            S("c18_fifo_conc", 600, 18000),
+            S("c18_ids", 400, 12000),
+            S("c18_idmap", 500, 15000, label="model"),
+            S("c18_idmap", 300, 9000, label="allocfault", idfault=1),
+        ],
+        "assumptions": [
+            "fifo_seq: a send or receive that times out (2 ms) after sim_quiesce is taken as 'queue full' / 'nothing "
+            "deliverable'; the content of a queue is taken as exactly known only after a fill from the empty path "
+            "with no receive or resize in between (otherwise only upper bounds are asserted)",
+            "fifo_seq occupancy: the number of in-flight slots outside the two buffers (N0 = 2 per path over inproc: "
+            "one message parked in each side's pipe-level aio) is a committed table measured on the unchanged tree",
+            "fifo_conc: on back-pressure paths the loss bound is the sum of (old depth - new depth) over the shrinks",
+            "ids: pipe ids are observed through pipe notifications (ADD_PRE..REM_POST), request/survey ids through "
+            "a raw REP/RESPONDENT peer; no range wraps within a run",
+            "idmap is a single-task model-based sequence test run inside the engine (allocator ledger and injected "
+            "allocation failures are what the simulator contributes); behaviour of nng_id_visit while the map is "
+            "being modified is not asserted (probe idmap_visit_unstable_under_remove)",
+        ],
+    },
 }
